@@ -17,19 +17,36 @@ PROP_TYPES = {'name': 'string:0:mc:u', 'count': 'number:int:signed', 'tags': 'st
 MULTI = {'tags', 'count'}
 
 
-def make_transcoders(normalize, drop):
+def upper(value):
+    yield value.upper() if isinstance(value, str) else value
+
+
+def make_transcoders(normalize, drop, post=False, second=None, second_source=None):
+    """second: None | 'after' | 'before' - the transcoder also yields an event of type rec.b (the record's name) for every record"""
     from edxml.transcode.object import ObjectTranscoder
+    from edxml import EDXMLEvent
 
     class A(ObjectTranscoder):
-        TYPES = ['rec.a']
+        TYPES = ['rec.a', 'rec.b'] if second else ['rec.a']
         TYPE_MAP = {'a': 'rec.a'}
         PROPERTY_MAP = {'rec.a': PMAP_A}
         EMPTY_VALUES = EMPTY_A
-        TYPE_PROPERTIES = {'rec.a': {p: 'ot-' + p for p in PROP_TYPES}}
+        TYPE_PROPERTIES = dict({'rec.a': {p: 'ot-' + p for p in PROP_TYPES}}, **({'rec.b': {'name': 'ot-name'}} if second else {}))
         TYPE_OPTIONAL_PROPERTIES = {'rec.a': [p for p in PROP_TYPES if p != 'name']}
         TYPE_MULTI_VALUED_PROPERTIES = {'rec.a': sorted(MULTI)}
         TYPE_AUTO_REPAIR_NORMALIZE = {'rec.a': ['count', 'flag']} if normalize else {}
         TYPE_AUTO_REPAIR_DROP = {'rec.a': ['count']} if drop else {}
+        TYPE_PROPERTY_POST_PROCESSORS = {'rec.a': {'alias': upper}} if post else {}
+
+        def generate(self, record, record_selector, **kwargs):
+            extra = EDXMLEvent({'name': [record['name']]} if isinstance(record.get('name'), str) and record['name'] else {}, 'rec.b')
+            if second_source:
+                extra.set_source(second_source)         # an event source the mediator never heard of
+            if second == 'before':
+                yield extra
+            yield from super().generate(record, record_selector, **kwargs)
+            if second == 'after':
+                yield extra
 
         def create_object_types(self, ontology):
             from edxml.ontology import DataType
@@ -93,8 +110,8 @@ def lookup(rec, selector):
     return cur
 
 
-def expected_properties(rec):
-    """property -> list of values as the property map and EMPTY_VALUES define them"""
+def expected_properties(rec, post=False):
+    """property -> list of values as the property map and EMPTY_VALUES define them; post: the post-processor of `alias` (upper case)"""
     props = {}
     for selector, names in PMAP_A.items():
         v = lookup(rec, selector)
@@ -108,7 +125,7 @@ def expected_properties(rec):
         else:
             vals = [v] if v not in empty else []
         for n in (names if isinstance(names, list) else [names]):
-            props[n] = vals
+            props[n] = [x.upper() if isinstance(x, str) else x for x in vals] if (post and n == 'alias') else list(vals)
     return props
 
 
@@ -201,10 +218,11 @@ def scenario(ck, rng, terms, metas):
     from edxml.transcode.object import ObjectTranscoderMediator
     from edxml.error import EDXMLError
     cfg = {'normalize': rng.random() < 0.5, 'drop': rng.random() < 0.4, 'ignore_invalid': rng.random() < 0.5, 'fallback': rng.random() < 0.5,
-           'to_file': rng.random() < 0.5, 'source_first': rng.random() < 0.8}
+           'to_file': rng.random() < 0.5, 'source_first': rng.random() < 0.8, 'post_processor': rng.random() < 0.4,
+           'second_event': rng.choice([None, None, 'after', 'before']), 'second_event_source': rng.choice([None, None, '/never/registered/'])}
     if cfg['drop']:
         cfg['normalize'] = True
-    A, F = make_transcoders(cfg['normalize'], cfg['drop'])
+    A, F = make_transcoders(cfg['normalize'], cfg['drop'], cfg['post_processor'], cfg['second_event'], cfg['second_event_source'])
 
     class M(ObjectTranscoderMediator):
         TYPE_FIELD = 'type'
@@ -248,7 +266,7 @@ def scenario(ck, rng, terms, metas):
         history[-1].append(err)
         # what this record should contribute
         if routed == 'a':
-            props = expected_properties(rec)
+            props = expected_properties(rec, cfg['post_processor'])
             valid = spec_valid_event(props)
             kind = 'valid' if valid else 'needs-repair-or-invalid'
         elif routed == 'fallback':
@@ -258,8 +276,16 @@ def scenario(ck, rng, terms, metas):
         else:
             props, valid, kind = None, None, 'none'
         ck.dist('event:' + kind)
-        pass
-        expected_events.append((routed, props, valid, err))
+        if routed == 'a' and cfg['second_event']:
+            # the record yields two events; whatever happens to one of them, the other is treated on its own merits
+            pb = {'name': [rec['name']]} if isinstance(rec.get('name'), str) and rec['name'] else {}
+            evl = [('a', props, valid), ('b', pb, bool(pb) and not cfg['second_event_source'])]
+            if cfg['second_event'] == 'before':
+                evl.reverse()
+            ck.dist('record-with-two-events')
+        else:
+            evl = [(routed, props, valid)] if routed is not None else []
+        expected_events.append((routed, evl, err))
         if err and err.startswith('foreign'):
             detail = 'unhashable-field-value' if 'unhashable' in err else 'other'
             ck.oracle_failures.append({'signature': 'process-raises/%s/%s' % (err.split(':')[0].split()[1], detail), 'input': {'config': cfg, 'history': history}, 'observed': err})
@@ -289,29 +315,33 @@ def scenario(ck, rng, terms, metas):
             return
     # the events are the valid ones, in order; invalid ones are absent (skipped or the stream stopped there)
     j = 0
-    for (routed, props, valid, err) in expected_events:
-        if routed is None:
-            continue
-        want = {k: sorted({coerce(x) if coerce(x) is not None else repr(x) for x in v}) for k, v in (props or {}).items() if v}
-        if valid:
-            if err:
-                ck.oracle_failures.append({'signature': 'valid-event-rejected', 'input': inp, 'observed': 'record gives the valid event %r; process raised' % want})
-                return
-            etype = 'rec.a' if routed == 'a' else 'rec.fallback'
-            if j >= len(evs) or evs[j][3] != want or evs[j][1] != etype:
-                ck.oracle_failures.append({'signature': 'valid-event-missing-or-changed', 'input': inp,
-                                           'observed': 'expected event %r at position %d, output has %r' % (want, j, evs[j][3] if j < len(evs) else None)})
-                return
-            j += 1
-        else:
-            # repaired (then present and valid by construction of the parser) or skipped / rejected
-            if j < len(evs) and not err:
-                got = evs[j][3]
-                # a repaired event keeps every valid value of the record fields and adds nothing that is not derived from them
-                keep = {k: [x for x in v if c03lib.spec_valid(PROP_TYPES.get(k, 'string:0:mc:u'), x) is True] for k, v in want.items()}
-                if all(set(keep.get(k, [])) <= set(got.get(k, [])) for k in keep if k != 'count' or True) and set(got) <= set(want) | {'name'} and \
-                        (cfg['normalize'] or cfg['drop']) and routed == 'a' and evs[j][1] == 'rec.a' and got.get('name') == want.get('name'):
-                    j += 1
+    for (routed, evl, err) in expected_events:
+        for (what, props, valid) in evl:
+            want = {k: sorted({coerce(x) if coerce(x) is not None else repr(x) for x in v}) for k, v in (props or {}).items() if v}
+            etype = {'a': 'rec.a', 'b': 'rec.b'}.get(what, 'rec.fallback')
+            if valid:
+                # a valid event is written; process() can only have raised for a LATER event of the same record
+                if err and all(v for _, _, v in evl):
+                    ck.oracle_failures.append({'signature': 'valid-event-rejected', 'input': inp, 'observed': 'record gives the valid event %r; process raised' % want})
+                    return
+                if j >= len(evs) or evs[j][3] != want or evs[j][1] != etype:
+                    ck.oracle_failures.append({'signature': 'valid-event-missing-or-changed', 'input': inp,
+                                               'observed': 'expected event %s %r at position %d, output has %r' % (etype, want, j, evs[j][1:] if j < len(evs) else None)})
+                    return
+                j += 1
+            else:
+                # repaired (then present and valid by construction of the parser), skipped, or the point where process() raised
+                repaired = False
+                if j < len(evs):
+                    got = evs[j][3]
+                    # a repaired event keeps every valid value of the record fields and adds nothing that is not derived from them
+                    keep = {k: [x for x in v if c03lib.spec_valid(PROP_TYPES.get(k, 'string:0:mc:u'), x) is True] for k, v in want.items()}
+                    if all(set(keep.get(k, [])) <= set(got.get(k, [])) for k in keep) and set(got) <= set(want) | {'name'} and \
+                            (cfg['normalize'] or cfg['drop']) and what == 'a' and evs[j][1] == 'rec.a' and got.get('name') == want.get('name'):
+                        j += 1
+                        repaired = True
+                if err and not repaired:
+                    break          # process() raised here: the remaining events of the record are not written
     if j != len(evs):
         ck.oracle_failures.append({'signature': 'unexpected-event-in-output', 'input': inp, 'observed': 'output holds %d events, %d accounted for' % (len(evs), j)})
         return
@@ -323,15 +353,16 @@ def scenario(ck, rng, terms, metas):
         if h[0] == 'add_event_source':
             mops.append(C('OSource', h[1]))
         else:
-            routed, props, valid, err = next(hi)
+            routed, evl, err = next(hi)
             if routed is None:
                 mops.append(C('ORecord', C('EvNone'), ''))
-            elif valid:
-                mops.append(C('ORecord', C('EvValid'), '/src/one/' if cfg['source_first'] else '/undefined/'))
-            elif cfg['normalize'] and routed == 'a':
-                ambiguous = True
-            else:
-                mops.append(C('ORecord', C('EvInvalid'), '/src/one/' if cfg['source_first'] else '/undefined/'))
+            for what, props, valid in evl:
+                if valid:
+                    mops.append(C('ORecord', C('EvValid'), '/src/one/' if cfg['source_first'] else '/undefined/'))
+                elif cfg['normalize'] and what == 'a':
+                    ambiguous = True
+                else:
+                    mops.append(C('ORecord', C('EvInvalid'), '/src/one/' if cfg['source_first'] else '/undefined/'))
     if not ambiguous and stopped is None:
         mops.append(C('OClose'))
         order = ['/undefined/'] + sources if not cfg['source_first'] else sources
